@@ -13,6 +13,7 @@ import (
 func init() { Registry["C10"] = c10 }
 
 func c10(r *Report) {
+	defer c10Seed5(r)
 	p := r.P
 	defer c10Audit4(r)
 	const ds = "vdr/didnuts/didstore"
